@@ -10,6 +10,9 @@
    Packages in the legacy DOSINI format (stored to / reloaded from the .instance.conf files), packages whose conf/ already
    carries a flowir_instance.yaml, and Reparam: the instance directory loaded as a package for another platform with
    updateInstanceConfiguration=True (a second store over an existing description; LastStoreWins).
+   Component variables defined by override.<platform>.variables (one of them only there) and Peek: the instance directory read
+   without naming the platform (experimentFromInstance(dir), what etest / ememo / ewrap do) must show every fact of what is stored
+   but the platform's name.
 2. spec -> code: TLC prints every transition with a shortest history that reaches it (ACTION_CONSTRAINT EmitStep).  Every
    maximal history is executed on real directories: Experiment.experimentFromPackage (platform, user variable file,
    replication, DoWhile document), WorkflowGraph.instantiate_dowhile_next_iteration, a dynamic option change,
@@ -730,7 +733,10 @@ def run(tier):
         "legacy (DOSINI) packages: default platform, no loop; compared on user / stage variables, replica count and the falsy-but-set options "
         "(max-restarts=0, repeatRetries=0, resolvePath=false, empty variable); the global variable scope and flowir_instance.yaml (a by-product "
         "there) are not compared because a legacy instance keeps its variables per stage",
-        "quick tier: Reparam and stale instance files only in some sub-families",
+        "quick tier: Reparam, Peek and stale instance files only in some sub-families",
+        "Peek is read-only (updateInstanceConfiguration=False); for it the platform's name and the `override` blocks (folded into the component "
+        "when the description is written) are not compared.  A platform-less load that WRITES BACK turns the instance into a default-platform "
+        "instance (platforms: [default]); a later load naming the original platform then fails with 'Unknown platform' -- not modelled, reported to the lead",
     ]
     _summary(chk)
     rc = chk.finish()
